@@ -123,32 +123,72 @@ def rule_translation(ctx):
     rspec = arms.get("Either::Right(_)")
     ctx.add("FLOW-SAN", "placeholders:specification", rspec == ("call", "Specification::replace_placeholders", (("proj", ("place", "self.specification"), (("Either::Right", "0"),)), PH)),
             site, "a .spec specification is used after replace_placeholders(placeholders) and nothing else", construct=rspec)
-    # control translation rows
-    rows = control_closure_rows(cl_r)
-    if rows is None:
-        raise AnalysisGap("control translation closure has an unexpected shape")
+    # control translation, decided per shape of the formula: the closure is applied to a completed definition, to an unquantified equivalence
+    # and to a constraint; the function that finds the defined predicate (whatever it is called, nested or not) is evaluated in place
+    from .. import leaves as _lv, comp as _comp
+    _comp.use(fx)
+    if not (cl_r[0] == "closure" and len(cl_r[1]) == 1):
+        raise AnalysisGap("control translation is not a closure over the formula")
     par = cl_r[1][0]
-    pub = ("guard", ("call", "IndexSet::contains", (("call", "UserGuide::public_predicates", (UG,)), HP(par))))
-    ref = [("Option::Some(_)", pub, ("ctor", "Role::Spec", ()), ("ctor", "Direction::Universal", ()), True),
-           ("Option::Some(_)", None, ("ctor", "Role::Assumption", ()), ("ctor", "Direction::Universal", ()), True),
-           ("Option::None", None, ("ctor", "Role::Spec", ()), ("ctor", "Direction::Universal", ()), True)]
-    names = ["public-definition", "private-definition", "constraint"]
-    for i, nm in enumerate(names):
-        got = rows[i] if i < len(rows) else None
-        ctx.add("FLOW-ROUTE", "control:" + nm, got == ref[i], site,
-                "%s -> role %s, direction %s, formula unchanged" % (nm, got[2][1] if got else None, got[3][1] if got else None), construct=got)
-    ctx.add("FLOW-ROUTE", "control:arms", len(rows) == 3, site, "control translation has exactly the three documented cases")
-    # head_predicate
-    hp = fx.fn("decompose::head_predicate")
-    v = sym.Eval(fx, inline_depth=0).function(hp)
-    ok = v[0] == "match" and v[1] == ("param", "formula")
-    armsd = {a[0]: a[-1] for a in v[2]} if ok else {}
-    eqv = armsd.get("Formula::BinaryFormula{connective: BinaryConnective::Equivalence}")
-    qf = armsd.get("Formula::QuantifiedFormula{quantification: Quantification{quantifier: Quantifier::Forall}}")
-    ok = ok and len(armsd) == 3 and armsd.get("_") == ("ctor", "Option::None", ()) and qf is not None and qf[:2] == ("call", "decompose::head_predicate") \
-        and eqv is not None and eqv[0] == "match" and "lhs" in repr(eqv[1]) and \
-        {a[0]: a[-1][:2] for a in eqv[2]} == {"Formula::AtomicFormula(AtomicFormula::Atom(_))": ("ctor", "Option::Some"), "_": ("ctor", "Option::None")} and "Atom::predicate" in repr(eqv[2][0])
-    ctx.add("TPL", "head_predicate", ok, ctx.site(hp), "head_predicate: (forall ..)* (atom <-> body) gives the atom's predicate, everything else None", construct=v)
+
+    def K(n, **f):
+        return ("ctor", n, tuple(sorted(f.items())))
+    ATOMF = K("Formula::AtomicFormula", **{"0": K("AtomicFormula::Atom", **{"0": ("param", "$atom")})})
+    EQV = K("Formula::BinaryFormula", connective=K("BinaryConnective::Equivalence"), lhs=ATOMF, rhs=("param", "$B"))
+    shapes = {"definition": K("Formula::QuantifiedFormula", quantification=K("Quantification", quantifier=K("Quantifier::Forall"), variables=("param", "$vs")), formula=EQV),
+              "unquantified-definition": EQV,
+              "constraint": K("Formula::QuantifiedFormula", quantification=K("Quantification", quantifier=K("Quantifier::Forall"), variables=("param", "$vs")),
+                              formula=K("Formula::BinaryFormula", connective=K("BinaryConnective::Implication"), lhs=("param", "$B"), rhs=K("Formula::AtomicFormula", **{"0": K("AtomicFormula::Falsity")}))),
+              "equivalence-of-non-atom": K("Formula::BinaryFormula", connective=K("BinaryConnective::Equivalence"),
+                                           lhs=K("Formula::UnaryFormula", connective=("param", "$u"), formula=("param", "$g")), rhs=("param", "$B")),
+              "exists": K("Formula::QuantifiedFormula", quantification=K("Quantification", quantifier=K("Quantifier::Exists"), variables=("param", "$vs")), formula=EQV)}
+    finders = [dp for dp in fx.bodies if len(fx.bodies[dp]) == 1 and fx.bodies[dp][0]["file"] == b["file"] and "::tests" not in dp
+               and fx.bodies[dp][0].get("ret_ty", "").startswith("std::option::Option<syntax_tree::fol::sigma_0::Predicate>") and len(fx.bodies[dp][0].get("params", [])) == 1
+               and "Formula" in str(fx.bodies[dp][0]["params"][0].get("ty", ""))]
+
+    def expand(t, depth=0):
+        """calls of the predicate finder on a literal formula evaluated in place (it recurses through universal quantifiers)"""
+        if not isinstance(t, tuple) or depth > 6:
+            return t
+        t = tuple(expand(x, depth) if isinstance(x, tuple) else x for x in t)
+        if t[:1] == ("call",) and len(t) == 3 and len(t[2]) == 1 and isinstance(t[2][0], tuple) and t[2][0][:1] == ("ctor",):
+            from ..flow import short as _short
+            for dp in finders:
+                if _short(dp) == t[1]:
+                    return expand(_comp.decide_literals(sym.Eval(fx, inline_depth=0).function(fx.bodies[dp][0], [t[2][0]])), depth + 1)
+        return t
+    PUB = ("call", "IndexSet::contains", (("call", "UserGuide::public_predicates", (UG,)), ("call", "Atom::predicate", (("param", "$atom"),))))
+
+    def outcome(shape):
+        body = _comp.decide_literals(expand(sym.subst(cl_r[2], {par: shape})))
+        out = []
+        for ts_, v_ in _lv.leaves(_comp.case_of_case(_lv.lift(body))):
+            v_ = _comp.decide_literals(_lv.norm(v_))
+            f_ = dict(v_[2]) if v_[:2] == ("ctor", "AnnotatedFormula") else {}
+            ctor_name = lambda x_: x_[1] if isinstance(x_, tuple) and x_[:1] == ("ctor",) else "?"
+            out.append((tuple(sorted(ts_, key=_lv.stable_key)), ctor_name(f_.get("role")), ctor_name(f_.get("direction")), f_.get("formula") == shape))
+        return sorted(out, key=_lv.stable_key)
+    pub_t, pub_f = ("cond", _lv.norm(PUB), True), ("cond", _lv.norm(PUB), False)
+    two = sorted([((pub_t,), "Role::Spec", "Direction::Universal", True), ((pub_f,), "Role::Assumption", "Direction::Universal", True)], key=_lv.stable_key)
+    one = [((), "Role::Spec", "Direction::Universal", True)]
+    got_def, got_unq = outcome(shapes["definition"]), outcome(shapes["unquantified-definition"])
+    ctx.add("FLOW-ROUTE", "control:public-definition", got_def == two and got_unq == two and any(o[1] == "Role::Spec" for o in got_def), site,
+            "the completed definition of a public predicate -> role Spec, direction Universal, formula unchanged", construct=got_def)
+    ctx.add("FLOW-ROUTE", "control:private-definition", got_def == two and got_unq == two and any(o[1] == "Role::Assumption" for o in got_def), site,
+            "the completed definition of a private predicate -> role Assumption, direction Universal, formula unchanged", construct=got_def)
+    others_ = {k_: outcome(shapes[k_]) for k_ in ("constraint", "equivalence-of-non-atom", "exists")}
+    ctx.add("FLOW-ROUTE", "control:constraint", all(v_ == one for v_ in others_.values()), site,
+            "any other formula (a constraint, an equivalence whose left side is no atom, an existential) -> role Spec, direction Universal, formula unchanged", construct=others_)
+    ctx.add("FLOW-ROUTE", "control:arms", len(finders) == 1, site, "one function finds the defined predicate of a formula: %s" % [hq.last(f_) for f_ in finders])
+    hp = fx.bodies[finders[0]][0] if len(finders) == 1 else None
+    if hp is None:
+        raise AnalysisGap("the function that finds the defined predicate of a formula was not found")
+    # the finder per shape: through universal quantifiers to an equivalence whose left side is an atom
+    got_hp = {k_: _lv.norm(expand(("call", __import__("rules.flow", fromlist=["short"]).short(finders[0]), (sh_,)))) for k_, sh_ in shapes.items()}
+    some_p = K("Option::Some", **{"0": ("call", "Atom::predicate", (("param", "$atom"),))})
+    none_p = K("Option::None")
+    ok = got_hp == {"definition": some_p, "unquantified-definition": some_p, "constraint": none_p, "equivalence-of-non-atom": none_p, "exists": none_p}
+    ctx.add("TPL", "head_predicate", ok, ctx.site(hp), "the defined predicate: forall* (p(..) <-> F) gives p, every other formula none", construct=got_hp)
     # renaming: only the program side, with the intersection of the private sets, suffix "p"
     mapping = rN[2][1]
     inter = [x for x in sym.subterms(mapping) if isinstance(x, tuple) and x[:2] == ("call", "IndexSet::intersection")]
@@ -276,8 +316,8 @@ def route_table(ctx, b, side):
                 src = x[2][0]
                 if src == F:
                     return (bucket, prole, False)
-                if src in (("each", BR), ("at", BR)):
-                    return (bucket, prole, True)
+                if src in (("each", BR), ("at", BR), ("each", ("fieldof", BR, "formulas")), ("at", ("fieldof", BR, "formulas"))):
+                    return (bucket, prole, True)     # an element of the broken formula (iterated as a Specification or through its `formulas`)
                 return ("?foreign-formula", prole, False)
             if bucket == "warning":
                 return ("warning", None, False)
@@ -296,6 +336,15 @@ def route_table(ctx, b, side):
                 y = t[3][0]
                 if isinstance(y, tuple) and y[:1] == ("list",):
                     return parse(t[1], bucket) + [item(x, bucket) for x in y[1]]
+                # an iterator chain (map over a literal list, over the parts of the broken formula, through a closure or a helper): its elements
+                from .. import comp as _comp
+                _comp.use(fx)
+                try:
+                    gs_ = _comp.coll(y)
+                except _comp.NotAComprehension:
+                    gs_ = None
+                if gs_ is not None and gs_ and all(len(alts_) == 1 and not alts_[0][0] for _, alts_ in gs_):
+                    return parse(t[1], bucket) + [item(alts_[0][1], bucket) for _, alts_ in gs_]
                 cy = ftpl.canon_iter(y)
                 if isinstance(cy, tuple) and cy[:1] == ("upd",) and cy[2] == "push" and leaves_strip(cy[1]) == ("call", "Vec::new", ()):
                     return parse(t[1], bucket) + [item(cy[3][0], bucket)]
